@@ -64,6 +64,8 @@ func (t *zzTicker) Slot() phase0.Slot      { return t.slot }
 
 type zzFetch struct {
 	epoch phase0.Epoch
+	slot2 phase0.Slot // second assigned slot of the same validator (proposer, when two)
+	two   bool
 	slot  phase0.Slot // assigned duty slot (when ok)
 	ok    bool
 	seq   int // global event sequence number at which the fetch happened
@@ -117,8 +119,15 @@ func (b *zzBN) ProposerDuties(ctx context.Context, epoch phase0.Epoch, idx []pha
 	off := (base + zzConcretizeU64(zzNondetRange("duty_off", 0, 2))) % zzSPE
 	s := phase0.Slot(uint64(epoch)*zzSPE + off)
 	zzOrd++
-	b.fetches = append(b.fetches, zzFetch{epoch: epoch, slot: s, ok: true, seq: zzSeq, ord: zzOrd})
-	return []*eth2apiv1.ProposerDuty{{Slot: s, ValidatorIndex: 7}}, nil
+	f := zzFetch{epoch: epoch, slot: s, ok: true, seq: zzSeq, ord: zzOrd}
+	duties := []*eth2apiv1.ProposerDuty{{Slot: s, ValidatorIndex: 7}}
+	if zzParam("TWO") == 1 && (uint64(s)+2)/zzSPE == uint64(epoch) && zzNondetBool("second_slot") {
+		// the same validator proposes twice in the epoch (two slots apart)
+		f.slot2, f.two = s+2, true
+		duties = append(duties, &eth2apiv1.ProposerDuty{Slot: s + 2, ValidatorIndex: 7})
+	}
+	b.fetches = append(b.fetches, f)
+	return duties, nil
 }
 func (b *zzBN) SyncCommitteeDuties(ctx context.Context, epoch phase0.Epoch, idx []phase0.ValidatorIndex) ([]*eth2apiv1.SyncCommitteeDuty, error) {
 	period := uint64(epoch) / 4
@@ -336,7 +345,7 @@ func ZZHarnessProposer() {
 			slot := tk.slot
 			epoch := phase0.Epoch(slot / zzSPE)
 			lf := zzLatestFetch(bn.fetches, epoch)
-			if lf != nil && lf.ok && lf.slot == slot && lf.seq < zzSeq && lastInvalidation <= lf.seq {
+			if lf != nil && lf.ok && (lf.slot == slot || (lf.two && lf.slot2 == slot)) && lf.seq < zzSeq && lastInvalidation <= lf.seq {
 				zzReach("due")
 				zzAssert(len(execs) == nexec+1, "fetched-duty-dispatched-exactly-once-at-its-tick")
 			}
@@ -373,7 +382,7 @@ func ZZHarnessProposer() {
 		}
 		zzAssert(lf != nil, "dispatched-duty-was-fetched")
 		if lf != nil {
-			zzAssert(lf.slot == execs[i].slot, "dispatched-duty-is-in-the-most-recently-fetched-assignment")
+			zzAssert(lf.slot == execs[i].slot || (lf.two && lf.slot2 == execs[i].slot), "dispatched-duty-is-in-the-most-recently-fetched-assignment")
 		}
 	}
 	zzReach("end")
